@@ -358,11 +358,16 @@ class RandInfoBuilder(ModelVisitor,RandIF):
         # Summing the array relates all array elements
         for f in e.arr.field_l:
             self.process_fieldref(f)
+        if e.arr.size_is_solved():
+            # ... and the number of them
+            self.process_fieldref(e.arr.size)
 
     def visit_expr_array_product(self, e):
         # The product, like the sum, relates all array elements
         for f in e.arr.field_l:
             self.process_fieldref(f)
+        if e.arr.size_is_solved():
+            self.process_fieldref(e.arr.size)
 
     def visit_expr_fieldref(self, e):
         # If the field is already referenced by an existing randset
@@ -381,6 +386,8 @@ class RandInfoBuilder(ModelVisitor,RandIF):
                 # entire (possibly variable-size) scalar array
                 for f in e.fm.field_l:
                     self.process_fieldref(f)
+                if fm.size_is_solved():
+                    self.process_fieldref(fm.size)
             else:
                 self.process_fieldref(fm)
  
